@@ -16,9 +16,79 @@ CONSTANTS = {
         # ... and at least twice the old capacity
         ("RESERVE_GROWTH", "arrow-buffer/src/buffer/mutable.rs",
          r"std::cmp::max\(new_capacity, self\.layout\.size\(\)\.saturating_mul\((\d+)\)\)", "int"),
+        # MutableBuffer::try_shrink_to_fit: len rounded up to a multiple of 64
+        ("SHRINK_ROUND", "arrow-buffer/src/buffer/mutable.rs",
+         r"pub fn try_shrink_to_fit\(&mut self\)[^{]*\{\s*let new_capacity = self\s*\.len\s*\.checked_next_multiple_of\((\d+)\)", "int"),
         # ALIGNMENT on the architecture the harness runs on (x86_64)
         ("ALIGNMENT_X86_64", "arrow-buffer/src/alloc/alignment.rs",
          r'#\[cfg\(target_arch = "x86_64"\)\]\s*pub const ALIGNMENT: usize = ([^;]+);', "int"),
     ],
 }
+
+
+# --- shape items -----------------------------------------------------------------------------
+# The C16 model hard-codes the guard conditions and the statement order of the ownership-critical
+# functions.  Each item below is the code as the model mirrors it (whitespace-insensitive, comments
+# must not be interleaved); the empty trailing group makes it an `intlist` item with value [].
+# If the source no longer matches, the item goes LOST and the obligation
+# `ArrowModel.C16.source_shape_intact` (Theorems.lean) no longer checks.
+import re as _re
+
+def _shape(snippet):
+    toks = snippet.split()
+    return r"\s*".join(_re.escape(t) for t in toks) + r"()"
+
+_SHAPES = [
+    # Buffer::into_mutable: offset guard, then Arc::try_unwrap, then MutableBuffer::from_bytes
+    ("SHAPE_INTO_MUTABLE", "arrow-buffer/src/buffer/immutable.rs",
+     "let res = if self.ptr_offset() > 0 { Err(self.data) } else { Arc::try_unwrap(self.data) };"),
+    ("SHAPE_INTO_MUTABLE_FROM_BYTES", "arrow-buffer/src/buffer/immutable.rs",
+     "MutableBuffer::from_bytes(bytes).map_err(Arc::new)"),
+    # MutableBuffer::from_bytes: custom owners are rejected BEFORE the reservation is taken
+    ("SHAPE_FROM_BYTES", "arrow-buffer/src/buffer/mutable.rs",
+     "let layout = match bytes.deallocation() { Deallocation::Standard(layout) => *layout, Deallocation::Custom(..) => return Err(bytes), }; "
+     "let len = bytes.len(); let data = bytes.ptr(); #[cfg(feature = \"pool\")] let reservation = bytes.reservation.lock().unwrap().take(); mem::forget(bytes);"),
+    # Buffer::into_vec: the three declines, in this order, before Arc::try_unwrap
+    ("SHAPE_INTO_VEC_CUSTOM", "arrow-buffer/src/buffer/immutable.rs",
+     "let layout = match self.data.deallocation() { Deallocation::Standard(l) => l, Deallocation::Custom(..) => return Err(self), }; if self.ptr != self.data.as_ptr() { return Err(self);"),
+    ("SHAPE_INTO_VEC_LAYOUT", "arrow-buffer/src/buffer/immutable.rs",
+     "let v_capacity = layout.size() / std::mem::size_of::<T>(); match Layout::array::<T>(v_capacity) { Ok(expected) if layout == &expected => {} _ => return Err(self),"),
+    ("SHAPE_INTO_VEC_RESERVATION", "arrow-buffer/src/buffer/immutable.rs",
+     "drop(bytes.reservation.lock().unwrap().take()); std::mem::forget(bytes);"),
+    # claim replaces the reservation
+    ("SHAPE_BYTES_CLAIM", "arrow-buffer/src/bytes.rs",
+     "pub(crate) fn claim(&self, pool: &dyn MemoryPool) { *self.reservation.lock().unwrap() = Some(pool.reserve(self.capacity())); }"),
+    ("SHAPE_MUTABLE_CLAIM", "arrow-buffer/src/buffer/mutable.rs",
+     "pub fn claim(&self, pool: &dyn MemoryPool) { *self.reservation.lock().unwrap() = Some(pool.reserve(self.capacity())); }"),
+    # freeze moves the reservation along
+    ("SHAPE_INTO_BUFFER", "arrow-buffer/src/buffer/mutable.rs",
+     "let reservation = self.reservation.lock().unwrap().take(); *bytes.reservation.lock().unwrap() = reservation; } std::mem::forget(self); Buffer::from(bytes)"),
+    # Tracker gives its size back on drop
+    ("SHAPE_TRACKER_DROP", "arrow-buffer/src/pool.rs",
+     "impl Drop for Tracker { fn drop(&mut self) { self.shared.fetch_sub(self.size, Ordering::Relaxed); } }"),
+    # mask assign operators: in place iff into_mutable succeeds, else keep the buffer and copy
+    ("SHAPE_BIT_ASSIGN", "arrow-buffer/src/buffer/boolean.rs",
+     "let buffer = std::mem::take(&mut self.buffer); match buffer.into_mutable() { Ok(mut buf) => { bit_util::apply_bitwise_binary_op("),
+    ("SHAPE_BIT_ASSIGN_COPY", "arrow-buffer/src/buffer/boolean.rs",
+     "Err(buf) => { self.buffer = buf; *self = BooleanBuffer::from_bitwise_binary_op("),
+    # PrimitiveArray::into_builder: the array data is dropped before the conversions are tried
+    ("SHAPE_INTO_BUILDER", "arrow-array/src/array/primitive_array.rs",
+     "drop(data); let try_mutable_null_buffer = match null_bit_buffer { None => Ok(None), Some(null_buffer) => {"),
+    ("SHAPE_INTO_BUILDER_VALUES", "arrow-array/src/array/primitive_array.rs",
+     "let try_mutable_buffer = buffer.into_mutable();"),
+    # C Data Interface: one-shot release; imported buffers are owned by a clone of the struct Arc
+    ("SHAPE_FFI_DROP", "arrow-data/src/ffi.rs",
+     "impl Drop for FFI_ArrowArray { fn drop(&mut self) { match self.release { None => (), Some(release) => unsafe { release(self) }, } } }"),
+    ("SHAPE_FFI_RELEASE", "arrow-data/src/ffi.rs",
+     "let private = unsafe { Box::from_raw(array.private_data.cast::<ArrayPrivateData>()) };"),
+    ("SHAPE_FFI_RELEASE_ONCE", "arrow-data/src/ffi.rs",
+     "array.release = None; }"),
+    ("SHAPE_FFI_EXPORT_CLONES", "arrow-data/src/ffi.rs",
+     ".chain(data.buffers().iter().map(|b| Some(b.clone())))"),
+    ("SHAPE_FFI_IMPORT_OWNER", "arrow-array/src/ffi.rs",
+     ".map(|ptr| unsafe { Buffer::from_custom_allocation(ptr, len, owner) })"),
+    ("SHAPE_FFI_IMPORT_CLONE", "arrow-array/src/ffi.rs",
+     "match unsafe { create_buffer(self.owner.clone(), self.array, index, len) } {"),
+]
+CONSTANTS["C16"] += [(name, path, _shape(snip), "intlist") for (name, path, snip) in _SHAPES]
 FUNCTIONS = {}
